@@ -120,6 +120,8 @@ def model_classes(mdl, ref=None, nblocks=None):
         c.append("repeated-prepare-compute")
     if mdl.get("order_spins"):
         c.append("spin-major-indices")
+    if mdl.get("family") == "wide":
+        c.append("wide-scale-parameters")
     if nblocks is not None:
         c.append("one-block" if nblocks == 1 else "multi-block")
     if ref is not None:
